@@ -210,10 +210,10 @@ func (w *world) dump() []hx.Rec { return hx.Decode(hx.Dump(w.kv)) }
 // initial key states
 
 type initState struct {
-	name         string
-	spec         kstate
-	cur, stale   uint64
-	versions     map[uint64]string // version records present (value; tombstone as stored)
+	name       string
+	spec       kstate
+	cur, stale uint64
+	versions   map[uint64]string // version records present (value; tombstone as stored)
 }
 
 func (w *world) mustOK(op *clientOp) {
